@@ -15,14 +15,14 @@ use std::time::{Duration, Instant};
 
 pub const CLI: &str = "/verif/target/cli/debug/aisparser";
 
-struct Run {
-    status: Option<i32>,
-    signal: bool,
-    stdout: Vec<u8>,
-    stderr: Vec<u8>,
+pub struct Run {
+    pub status: Option<i32>,
+    pub signal: bool,
+    pub stdout: Vec<u8>,
+    pub stderr: Vec<u8>,
 }
 
-fn run_cli(input: &[u8]) -> Run {
+pub fn run_cli(input: &[u8]) -> Run {
     let mut child = Command::new(CLI)
         .stdin(Stdio::piped())
         .stdout(Stdio::piped())
